@@ -646,6 +646,15 @@ func (p *Path) jump(fr *Frame, to *ssa.BasicBlock) {
 			fr.backEdge = map[int]int{}
 		}
 		fr.backEdge[to.Index]++
+		if len(p.eng.cfg.BoundedLoops) > 0 {
+			name := fr.fn.String()
+			for sub, bound := range p.eng.cfg.BoundedLoops {
+				if fr.backEdge[to.Index] > bound && strings.Contains(name, sub) {
+					p.lastFn = fr.fn
+					p.end("hang", fmt.Sprintf("loop in %s runs past %d iterations: it does not terminate", name, bound)+p.where())
+				}
+			}
+		}
 		if fr.backEdge[to.Index] > p.eng.cfg.MaxLoop {
 			p.end("unwind", fmt.Sprintf("loop bound %d exceeded in %s", p.eng.cfg.MaxLoop, fr.fn)+p.where())
 		}
